@@ -50,9 +50,10 @@ type concRun struct {
 	seq    int64
 	mu     sync.Mutex
 	events []cEvent
-	atoms  map[string][]byte // atom -> bytes
-	byMD5  map[string]string // quoted etag -> atom
-	md5s   map[string]string // atom -> md5 hex
+	atoms  map[string][]byte        // atom -> bytes
+	byMD5  map[string]string        // quoted etag -> atom
+	md5s   map[string]string        // atom -> md5 hex
+	multi  map[string][]interface{} // md5 hex of an assembled multipart body -> its atoms
 	bySHA  map[string]string
 	seed   int64
 	sizes  []int
@@ -419,6 +420,20 @@ func (cr *concRun) doOp(c string, op Op, body []byte, slowBody *gatedBody, slowW
 			}
 			if cm.ETag == `"`+hex.EncodeToString(h.Sum(nil))+"-"+fmt.Sprint(len(listed))+`"` {
 				r["cetag"] = listed
+				// the whole-body MD5 of the assembled object, for reads / copies / listings of it (see sorted)
+				whole := md5.New()
+				var atoms []interface{}
+				for _, p := range listed {
+					name := p.([]interface{})[0].(string)
+					atoms = append(atoms, name)
+					cr.mu.Lock()
+					body := cr.atoms[name]
+					cr.mu.Unlock()
+					whole.Write(body)
+				}
+				cr.mu.Lock()
+				cr.multi[hex.EncodeToString(whole.Sum(nil))] = atoms
+				cr.mu.Unlock()
 			} else {
 				r["cetag"] = []interface{}{[]interface{}{"?wrong-composite-etag"}}
 			}
@@ -454,7 +469,7 @@ func newConcRunOpts(sysName string, versioned bool, seed int64, big bool, so Sys
 	if err != nil {
 		return nil, cEvent{}, err
 	}
-	cr := &concRun{sys: sys, atoms: map[string][]byte{}, md5s: map[string]string{}, byMD5: map[string]string{}, bySHA: map[string]string{}, seed: seed}
+	cr := &concRun{sys: sys, atoms: map[string][]byte{}, md5s: map[string]string{}, multi: map[string][]interface{}{}, byMD5: map[string]string{}, bySHA: map[string]string{}, seed: seed}
 	cr.sizes = []int{40, 300, 5000, 40000, 70000}
 	if big {
 		cr.sizes = []int{70000, 140000, 300000}
@@ -482,6 +497,10 @@ func newConcRunOpts(sysName string, versioned bool, seed int64, big bool, so Sys
 }
 
 // freeRun: n clients issue m operations each on a few keys, concurrently.
+// singleKeyMix: only operations on one key each (no listing, copy, multi-delete, multipart): such histories
+// can be decided key by key (linearizability is local).
+var singleKeyMix bool
+
 func freeRun(sysName string, versioned bool, clients, m int, nkeys int, seed int64, multipart bool) ([]cEvent, error) {
 	cr, reset, err := newConcRun(sysName, versioned, seed, false)
 	if err != nil {
@@ -513,6 +532,9 @@ func freeRun(sysName string, versioned bool, clients, m int, nkeys int, seed int
 				k := keys[r.Intn(len(keys))]
 				kb := keyBytes(k)
 				x := r.Intn(100)
+				if singleKeyMix && x >= 78 && x < 94 {
+					x -= 50 // a listing becomes an upload, a copy a read
+				}
 				switch {
 				case multipart && k == keys[0] && x < 35:
 					n := 1 + r.Intn(2)
@@ -653,6 +675,40 @@ func (cr *concRun) sorted() []cEvent {
 	defer cr.mu.Unlock()
 	ev := append([]cEvent{}, cr.events...)
 	sort.Slice(ev, func(i, j int) bool { return ev[i].Seq < ev[j].Seq })
+	// ETags of assembled multipart objects (the MD5 of the whole body: what a copy, a listing or a read of
+	// such an object reports) are resolved now that every successful completion has registered its body
+	fix := func(v interface{}) interface{} {
+		l, ok := v.([]interface{})
+		if !ok || len(l) != 1 {
+			return v
+		}
+		s, ok := l[0].(string)
+		if !ok || !strings.HasPrefix(s, "?unknown-etag-") {
+			return v
+		}
+		if atoms, ok := cr.multi[strings.TrimPrefix(s, "?unknown-etag-")]; ok {
+			return atoms
+		}
+		return v
+	}
+	for i := range ev {
+		r := ev[i].R
+		if r == nil {
+			continue
+		}
+		for _, f := range []string{"etag", "xetag"} {
+			if v, ok := r[f]; ok {
+				r[f] = fix(v)
+			}
+		}
+		if ks, ok := r["keys"].([]interface{}); ok {
+			for _, k := range ks {
+				if m, ok := k.(map[string]interface{}); ok {
+					m["body"] = fix(m["body"])
+				}
+			}
+		}
+	}
 	return ev
 }
 
@@ -917,6 +973,7 @@ func cmdConc(args []string) {
 	nkeys := fs.Int("keys", 2, "keys")
 	trace := fs.String("trace", "", "NDJSON output")
 	gated := fs.Bool("gated", true, "include the slow uploader / slow reader scenarios")
+	fs.BoolVar(&singleKeyMix, "single-key-mix", false, "free runs use single-key operations only")
 	partRace := fs.Int("partrace", 0, "rounds of the re-upload-during-complete sweep")
 	seqOps := fs.Int("seq", 0, "instead of concurrent runs: sequential random histories of this many operations")
 	out := fs.String("out", "", "summary")
@@ -957,7 +1014,7 @@ func cmdConc(args []string) {
 			fmt.Sscan(cs, &clients)
 			for i := 0; i < *runs; i++ {
 				versioned := sysName == "mem" && i%2 == 1
-				multipart := i%3 == 2
+				multipart := i%3 == 2 && !singleKeyMix
 				evs, err := freeRun(sysName, versioned, clients, *opsPer, *nkeys, *seed*1000+int64(i)*31+int64(clients), multipart)
 				if err != nil {
 					problems = append(problems, err.Error())
